@@ -135,9 +135,11 @@ theorem writes_archive_xattr (cfg : Cfg) (hs : cfg.sidecar = false) (rq : Req) (
       · subst h; exact ⟨_, rfl⟩
   · exact WritesIn.nil _
 
-theorem writes_deleteNullVersion (cfg : Cfg) (key : Path) (fs : FS) : WritesIn (fun q => ["V"] <+: q) (deleteNullVersion cfg fs key) := by
+theorem writes_deleteNullVersion (cfg : Cfg) (hs : cfg.sidecar = false) (key : Path) (fs : FS) :
+    WritesIn (fun q => ["V"] <+: q) (deleteNullVersion cfg fs key) := by
   unfold deleteNullVersion
   dsimp only
+  rw [deleteAttrs_xattr cfg hs, List.append_nil]
   refine WritesIn.ite ?_ (WritesIn.nil _)
   intro s hs q hq
   simp only [List.mem_singleton] at hs; subst hs
@@ -156,7 +158,7 @@ theorem aside_prePut (cfg : Cfg) (hs : cfg.sidecar = false) (rq : Req) (key : Pa
     exact aside_tmp (ref_openTmp cfg fs 0 _ _ _ q (by simpa [Step.writes] using hq))
   · exact WritesIn.ite ((writes_archive_xattr cfg hs rq key _).mono (fun q h => aside_V h)) (WritesIn.nil _)
   · exact (writes_mkdirAll _ _).mono (fun q h => aside_above_obj h.1 hk.1)
-  · exact WritesIn.ite ((writes_deleteNullVersion cfg key _).mono (fun q h => aside_V h)) (WritesIn.nil _)
+  · exact WritesIn.ite ((writes_deleteNullVersion cfg hs key _).mono (fun q h => aside_V h)) (WritesIn.nil _)
   · exact WritesIn.nil _
   · exact (writes_storeAttrs_xattr cfg hs _ _ _ _).mono (fun q h => aside_tmp (ref_openTmp cfg fs 0 _ _ _ q h))
 
